@@ -904,7 +904,16 @@ pub fn run_c12(ctx: &mut Ctx, from: u64, to: u64) {
         ctx.begin_case(k);
         let mut rng = Rng::new(case_seed(ctx.seed, "C12", k));
         let class = *rng.pick(&[CorpusClass::Normal, CorpusClass::AmbiguousTags, CorpusClass::AmbiguousTags, CorpusClass::PartiallyTagged, CorpusClass::PartialAnnotation]);
-        let tc = gen_train_case(&mut rng, 1, 3, class, true);
+        let mut tc = gen_train_case(&mut rng, 1, 3, class, true);
+        if k % 25 == 7 {
+            // a corpus without any tag: the trained model has no tag category, so no token may ever be given a tag
+            for s in tc.corpus.iter_mut() {
+                s.tags.iter_mut().for_each(|t| t.clear());
+            }
+            tc.tag_dict.clear();
+            ctx.count("corpora_without_any_tag", 1);
+        }
+        let tc = tc;
         ctx.count(&format!("solver_{}", tc.solver), 1);
         let r = guard(|| train_case(&tc));
         ctx.eval(1);
@@ -1026,6 +1035,13 @@ pub fn run_c12(ctx: &mut Ctx, from: u64, to: u64) {
             for t in &tc.eval {
                 let types = ctypes(t);
                 let mut s = Sentence::from_raw(to_string(t)).unwrap();
+                // the object already carries tags of some earlier use (they are not this model's tags)
+                if t.len() % 2 == 0 {
+                    s.reset_tags(2);
+                    for x in s.tags_mut().iter_mut() {
+                        *x = Some(std::borrow::Cow::Borrowed("STALE"));
+                    }
+                }
                 p.predict(&mut s);
                 // force boundaries so that known tokens occur
                 let mut labels: Vec<u8> = s.boundaries().iter().map(|&b| label_of(b)).collect();
